@@ -33,7 +33,9 @@ Definition cfg_of (l : list dyn) : option cfg :=
   | [tcp; DInt naddr; nodelay; tls; ka; ign; DBytes prefix; dnr; uni; DInt enc; DInt serde; DInt hf; DInt hs; DInt hm] =>
       Some {| c_tcp := b_of tcp; c_naddr := naddr; c_nodelay := b_of nodelay; c_tls := b_of tls; c_keepalive := b_of ka;
               c_ignore_exc := b_of ign; c_prefix := prefix; c_default_noreply := b_of dnr; c_unicode := b_of uni;
-              c_enc := if enc =? 0 then EncAscii else EncUtf8; c_serde := serde;
+              c_enc := if enc =? 0 then EncAscii else EncUtf8;
+              (* serde code: 0 none, 1 PickleSerde, 2 + n: CompressedSerde(identity codec, min_compress_len = n) *)
+              c_serde := (if serde >=? 2 then 2 else serde); c_orc := no_oracles (if serde >=? 2 then serde - 2 else 0);
               h_fetch := exn_of_tag hf; h_store := exn_of_tag hs; h_misc := exn_of_tag hm |}
   | _ => None end.
 Fixpoint pairs_of (l : list dyn) : list (dyn * dyn) :=
